@@ -18,21 +18,7 @@ def base_ref(quirks=()):
 
 def fork_ref(base, clauses, quirks=None):
     """a fresh interpreter = helper facts of base + the program's clauses"""
-    r = R.RefProlog.__new__(R.RefProlog)
-    r.quirks = base.quirks if quirks is None else frozenset(quirks)
-    r.call_ite_cond_transparent = "call_ite_cond_cut" in r.quirks
-    r.preds = dict(base.preds)        # helper predicates are never modified by these programs
-    r.gen = base.gen
-    r.varctr = 0
-    r.output = []
-    r.bb = {}
-    r.stats = {}
-    r.last_status = None
-    r.det_builtins = base.det_builtins
-    r.nondet_builtins = base.nondet_builtins
-    for c in clauses:
-        r.add_clause(c)
-    return r
+    return base.fork(clauses, quirks)
 
 
 def ref_run(base, clauses, queries, quirks=None):
@@ -126,7 +112,8 @@ def _subseq(a, b):
     return i == len(a)
 
 
-QUIRK_SETS = [("body_cond_cut",), ("call_ite_cond_cut",), ("body_cond_cut", "call_ite_cond_cut")]
+QUIRK_SETS = [("body_cond_cut",), ("call_ite_cond_cut",), ("body_cond_cut", "call_ite_cond_cut"),
+              ("body_cond_cut", "not_cut_free"), ("body_cond_cut", "not_cut_free", "call_ite_cond_cut")]
 
 
 def explain(base, clauses, query, impl_res):
